@@ -186,6 +186,25 @@ def run(run):
                 run.count('concurrent_hash_yields', mon.yields)
         finally:
             sys.setswitchinterval(old_si)
+        if not problems:
+            from ..probes.linemon import PreemptEverywhere
+            pe = PreemptEverywhere(['minecraft/networking/encryption.py'],
+                                   max_k=60)
+            a_in = ('srvA', bytes(range(16)), bytes(range(50, 144)))
+            b_in = ('', bytes(range(16, 32)), b'k' * 162)
+            ea, eb = javahash.server_hash(*a_in), javahash.server_hash(*b_in)
+
+            def judge(k, ra, rb):
+                if ra != ('ok', ea) or rb != ('ok', eb):
+                    return {'stopped_after_statements': k, 'thread_a':
+                            repr(ra), 'thread_b': repr(rb),
+                            'expected': (ea, eb)}
+            wit = pe.run(
+                lambda: encryption.generate_verification_hash(*a_in),
+                lambda: encryption.generate_verification_hash(*b_in), judge)
+            run.count('hash_preemption_points', pe.points)
+            if wit:
+                problems.append(wit)
         if problems:
             run.violation('hash/concurrent', 'a hash computed while other '
                           'threads were computing hashes is wrong (shared '
